@@ -2428,6 +2428,33 @@ func (s *Switch) RemoveLink(chanID lnwire.ChannelID) {
 	close(stopChan)
 	delete(s.linkStopIndex, chanID)
 	s.indexMtx.Unlock()
+
+	// The link may have been stopped after a revocation persisted a
+	// forwarding package but before the settles and fails of that package
+	// were handed to the switch. They answer HTLCs of other links, which
+	// must not wait until this link comes back, so hand over whatever is
+	// still unacknowledged, exactly as is done at start-up.
+	//
+	// Before the switch is started there is nothing to do: Start
+	// reforwards the responses of all channels itself, and nobody would
+	// take the packets off our hands yet.
+	shortChanID := link.ShortChanID()
+	if shortChanID == hop.Source ||
+		atomic.LoadInt32(&s.started) != 1 ||
+		atomic.LoadInt32(&s.shutdown) != 0 {
+
+		return
+	}
+
+	fwdPkgs, err := s.loadChannelFwdPkgs(shortChanID)
+	if err != nil {
+		log.Errorf("unable to load forwarding packages of removed "+
+			"link %v: %v", shortChanID, err)
+
+		return
+	}
+
+	s.reforwardSettleFails(fwdPkgs)
 }
 
 // removeLink is used to remove and stop the channel link.
